@@ -370,6 +370,7 @@ func runPath(i *interpreter, fn value, prefix []decision) (out pathOutcome) {
 	journalOn = true
 	px = &pathCtx{prefix: prefix, inputIx: map[string]int{}, decided: map[int]bool{}}
 	i.spawned = nil
+	resetWatch()
 	i.schedOn, i.schedFrom, i.nextGo = false, 0, 0
 	defer func() {
 		journalOn = false
